@@ -19,7 +19,11 @@ Inductive case :=
 | KSelect (n : nat) (rounds : list (nat * nat)) (delivered : list nat)
 (* a waiting request over a source expression that matches no partition: did it return (within time-out + slack), with how
    many events, and did its continuation request carry the query *)
-| KEmpty (returned : bool) (nev : nat) (continues : bool).   (* /repo's own journal iterator: a flush right before the last look of a read-to-end *)
+| KEmpty (returned : bool) (nev : nat) (continues : bool)
+(* a waiting reader with a filter at the end of its partitions: per partition the match flags of the records appended during
+   the wait, in order; out: the selector's cached status of the last chunk was "nothing in the range" (RANGE ahead of the
+   stored data); returned: the request returned a (matching) event *)
+| KFilt (out : bool) (srcs : list (list bool)) (returned : bool).   (* /repo's own journal iterator: a flush right before the last look of a read-to-end *)
 
 Definition round_eqb (a b : list nat * nat) : bool := list_eqb Nat.eqb (fst a) (fst b) && Nat.eqb (snd a) (snd b).
 
@@ -52,6 +56,9 @@ Definition check (c : case) : bool :=
       Nat.eqb (length (dst (run code_applies_filter [] (init [] 0) (rearm_sched b1 b2)))) copied
   | KRange skipped => Bool.eqb skipped code_reloads_count_range
   | KSelect n rounds delivered => list_eqb Nat.eqb (sel_run code_select_advances STail n rounds) delivered
+  | KFilt out srcs returned =>
+      Bool.eqb (fst (frounds code_release_reaches code_status_refreshes 3
+                       (map (fun r => {| fs_rest := r; fs_eof := true; fs_out := out |}) srcs))) returned
   | KEmpty returned nev continues =>
       Bool.eqb (match empty_wait_loop code_empty_waits_for_ctx 1000 with Some _ => true | None => false end) returned &&
       Nat.eqb nev 0 &&
